@@ -78,6 +78,10 @@ class Evaluator(Folder):
         if isinstance(e, ast.Yield):
             self.yielded.append(self.fold(e.value) if e.value is not None else None)
             return None
+        if isinstance(e, ast.YieldFrom):
+            # generators are evaluated eagerly: what the delegate yields is yielded here, in order
+            self.yielded.extend(list(self.fold(e.value)))
+            return None
         if isinstance(e, ast.NamedExpr) and isinstance(e.target, ast.Name):
             v = self.fold(e.value)
             self.env[e.target.id] = v
@@ -212,8 +216,6 @@ class Evaluator(Folder):
             if isinstance(st, ast.FunctionDef):
                 from .fold import _LocalFn
 
-                if any(isinstance(n, (ast.Yield, ast.YieldFrom)) for n in ast.walk(st)):
-                    raise Unfoldable("local generator " + st.name)
                 self.env[st.name] = _LocalFn(st, self.env)
         elif isinstance(st, ast.ClassDef):
             self.env[st.name] = LocalClass(st, self)
